@@ -1,5 +1,3 @@
-//verif:v2only
-
 package codecprops
 
 // C07 (batch envelopes) - the exclusion paths of create / update are relative to each entity of a batch body:
